@@ -22,6 +22,7 @@ type Failure struct {
 
 type Rec struct {
 	Alias    map[string]string // oracle key -> key under the property being checked (shared scenarios)
+	AliasPrefix map[string]string // the same for every key with a given prefix (a whole scenario of another property)
 	OnlyProp string // see Fail
 	Prop      string
 	Tier      string
@@ -71,6 +72,12 @@ func (r *Rec) Case(sig string, nontrivial bool) {
 func (r *Rec) Fail(key, what string, replay []string) {
 	if a, ok := r.Alias[key]; ok {
 		key = a // the same oracle under the key of the property whose check runs the shared scenario
+	}
+	for p, np := range r.AliasPrefix {
+		if strings.HasPrefix(key, p) {
+			key = np + key[len(p):]
+			break
+		}
 	}
 	if r.OnlyProp != "" && len(key) > 4 && key[0] == 'C' && key[3] == '/' && key[:3] != r.OnlyProp {
 		r.Count("other-property-oracle:" + key[:3])
